@@ -23,7 +23,7 @@ tvars == <<l, stats>>
 Tol == 4096          \* 1/16 unit, scaled
 
 FCof(a) == [kind |-> a.kind, nG |-> a.nG, nL |-> a.nL, gsubrs |-> a.gsubrs, lsubrs |-> a.lsubrs,
-            comps |-> a.comps, seacOk |-> a.seacOk, regions |-> a.regions, tuple |-> a.tuple, dvs |-> a.dvs]
+            comps |-> a.comps, seacOk |-> a.seacOk, charset |-> a.charset, nGlyphs |-> a.nGlyphs, regions |-> a.regions, tuple |-> a.tuple, dvs |-> a.dvs]
 
 Dev_F32Tolerance(got, want) ==
   /\ Len(got) = Len(want)
@@ -51,7 +51,8 @@ JudgeStats(e, s1) ==
 Bump(s, f) == [s EXCEPT ![f] = @ + 1]
 
 TInit == l = 1 /\ stats = [judged |-> 0, exact |-> 0, fuzzy |-> 0, notwf |-> 0, cmds |-> 0,
-                           withsubrs |-> 0, withmask |-> 0, withwidth |-> 0, deep |-> 0, blends |-> 0, empty |-> 0]
+                           withsubrs |-> 0, withmask |-> 0, withwidth |-> 0, deep |-> 0, blends |-> 0, empty |-> 0,
+                           seac |-> 0]
 
 \* r is an operator parameter so that the interpretation is evaluated once per event
 Stats(r) ==
@@ -62,8 +63,9 @@ Stats(r) ==
            d == IF r.width # <<>> THEN Bump(c, "withwidth") ELSE c
            f == IF r.maxDepth > 2 THEN Bump(d, "deep") ELSE d
            g == IF r.seenBlend THEN Bump(f, "blends") ELSE f
-           h == IF r.cmds = <<>> THEN Bump(g, "empty") ELSE g IN
-       [h EXCEPT !.cmds = @ + Len(r.cmds)]
+           h == IF r.cmds = <<>> THEN Bump(g, "empty") ELSE g
+           k == IF r.seac # 0 THEN Bump(h, "seac") ELSE h IN      \* an accented character: both components resolved and drawn
+       [k EXCEPT !.cmds = @ + Len(r.cmds)]
   ELSE Bump(stats, "notwf")
 
 Judge(e, r) ==
